@@ -1,5 +1,6 @@
 #!/usr/bin/env python3
 """writes /verif/MANIFEST.json and /verif/vx/assumptions.json from the tables below"""
+import sys
 import json, os
 HERE = os.path.dirname(os.path.dirname(os.path.abspath(__file__)))
 
